@@ -135,7 +135,29 @@ func sameAddr(a, b ssa.Value) bool {
 	if ok1 && ok2 {
 		return x.Field == y.Field && (x.X == y.X || sameValue(x.X, y.X))
 	}
+	// two loads of a spilled, write-once variable (a parameter captured by a
+	// closure): the pointers loaded are the same pointer
+	lx, ok1 := a.(*ssa.UnOp)
+	ly, ok2 := b.(*ssa.UnOp)
+	if ok1 && ok2 && lx.Op == token.MUL && ly.Op == token.MUL && lx.X == ly.X {
+		if al, isAlloc := lx.X.(*ssa.Alloc); isAlloc && storesTo(al) == 1 {
+			return true
+		}
+	}
 	return false
+}
+
+// storesTo counts the direct stores to an Alloc cell.
+func storesTo(al *ssa.Alloc) int {
+	n := 0
+	if refs := al.Referrers(); refs != nil {
+		for _, r := range *refs {
+			if st, ok := r.(*ssa.Store); ok && st.Addr == ssa.Value(al) {
+				n++
+			}
+		}
+	}
+	return n
 }
 
 // pureAccessor: a call of a module method with no arguments besides the
